@@ -282,6 +282,19 @@ def merge_reach(results, coverage):
                                    "decides nothing")
 
 
+def _warm_hypothesis_constants():
+    """Hypothesis biases its draws towards constants found in the source of the local modules (harness, checks,
+    pyvolutionary) and caches them per source file under .hypothesis/constants.  In a fresh checkout sixteen worker
+    processes would write and read that cache concurrently and some would parse a half-written file, so the case
+    sample of a first run would differ from every later one.  Collecting the constants once, here, before the workers
+    are forked makes the sample a function of the code and VERIF_SEED only."""
+    try:
+        from hypothesis.internal.conjecture import providers
+        providers._get_local_constants()
+    except Exception:  # noqa: BLE001 - an internal of the library: without it runs are still sound, only less repeatable
+        pass
+
+
 # ---------------------------------------------------------------------------------------------------------
 # main
 # ---------------------------------------------------------------------------------------------------------
@@ -373,6 +386,7 @@ def main(module_name, argv=None):
         print(f"HARNESS-ERROR {e}")
         return 2
     results = []
+    _warm_hypothesis_constants()
     if len(shards) == 1 or WORKERS <= 1:
         for sh in shards:
             results.append(_shard_entry(module_name, sh, tier, seed))
